@@ -27,7 +27,7 @@ class Check(Prop):
     RULE = ("cases = programs that do not reopen configured classes: golden corpus programs, grammar-generated programs, and "
             "concatenations of hand-written statement groups rich in the shapes that touch shared method types (operators and named "
             "methods on union receivers, OptionalUnify returns, push/<</concat growth, rest-parameter and keyword calls, destructive "
-            "methods, blocks), and calls of every method of the shipped configuration with 15 fixed (enumerated) and generated argument lists, accepted and rejected. Oracle (state probe through the verif hook): the in-process server renders every table entry that exists "
+            "methods, blocks), and calls of every method of the shipped configuration with 15 fixed (enumerated) and generated argument lists, accepted and rejected, and programs that define classes with the short name of a configured class inside a namespace of their own. Oracle (state probe through the verif hook): the in-process server renders every table entry that exists "
             "before the analysis (all frames; arguments, return type incl. variants, flags, block parameters, overloads), runs the four "
             "rounds, renders the same keys again; any REMOVED or CHANGED pre-existing entry is a violation (entries added by inference and "
             "the display cache beforeEvaluateCode are ignored). Confirmation on the real binary: when the program followed by a probe "
@@ -69,7 +69,31 @@ class Check(Prop):
 
         @st.composite
         def case(draw):
-            k = draw(st.integers(0, 11))
+            k = draw(st.integers(0, 13))
+            if k >= 12:
+                # user classes that share the short name of a configured class but live in a namespace of their own: not a reopening
+                names = sorted(n for n in self.cfg if n and n[0].isupper() and n.isidentifier())
+                ns = draw(st.sampled_from(["Drivers", "Mine", "Outer::Deep"]))
+                lines = []
+                ind = ""
+                for part in ns.split("::"):
+                    lines.append(ind + "module " + part)
+                    ind += "  "
+                picked = draw(st.lists(st.sampled_from(names), min_size=1, max_size=3, unique=True))
+                for n in picked:
+                    lines.append(ind + "class " + n)
+                    if draw(st.integers(0, 2)) == 0:
+                        lines += [ind + "  def initialize(a)", ind + "    @a = a", ind + "  end"]
+                    lines += [ind + "  def nsm_%s" % n.lower(), ind + "    1", ind + "  end"]
+                    if draw(st.integers(0, 3)) == 0:
+                        lines += [ind + "  def self.nsc_%s" % n.lower(), ind + "    \"s\"", ind + "  end"]
+                    lines.append(ind + "end")
+                for kk in range(len(ns.split("::")) - 1, -1, -1):
+                    lines.append("  " * kk + "end")
+                for n in picked:
+                    lines.append("nso_%s = %s::%s.new%s" % (n.lower(), ns, n, draw(st.sampled_from(["", "(1)", "(1, 2)"]))))
+                    lines.append("nsq_%s = %s.new%s" % (n.lower(), n, draw(st.sampled_from(["", "(1)", "(1, 2)"]))))
+                return {"src": "\n".join(lines) + "\n", "origin": "namespaced-shadow"}
             if k >= 10:
                 from .. import shipped
                 return {"src": draw(shipped.strategy(self.repo)), "origin": "shipped-calls-generated"}
@@ -96,7 +120,7 @@ class Check(Prop):
         src = case["src"]
         key = run.sha(src)
         labels = [case.get("origin", "generated").split(":")[0]]
-        if self.reopens(src):
+        if labels[0] != "namespaced-shadow" and self.reopens(src):
             return Verdict(None, labels + ["precondition"], False, key, discard="precondition")
         if rt.backend != "inproc":
             return Verdict(None, labels + ["no-hook"], False, key, discard="precondition")
@@ -105,7 +129,7 @@ class Check(Prop):
             return Verdict(None, labels, False, key, discard="crash")
         if o.kind != "ok":
             return Verdict(None, labels, False, key, discard="hang")
-        nontrivial = bool(re.search(r"\? .* : |\.push\(|<<|\.concat\(|\.first|\.last|\.merge|asterisk|!\s*$|!\n", src)) or labels[0].startswith("shipped-calls")
+        nontrivial = bool(re.search(r"\? .* : |\.push\(|<<|\.concat\(|\.first|\.last|\.merge|asterisk|!\s*$|!\n", src)) or labels[0].startswith("shipped-calls") or labels[0] == "namespaced-shadow"
         if re.search(r" \? ", src):
             labels.append("union-values")
         if not o.snap:
